@@ -16,6 +16,12 @@ class Inner(Packet):
     p = Int(1)
     q = Int(2)
 
+
+class Both(AutoLength):
+    # a descriptor with BOTH sync hooks (the built-in ones only have sync_before_pack)
+    def sync_after_unpack(self, instance):
+        setattr(instance, self.iam_enabled_attr_name, True)
+
 """
 
 
